@@ -26,6 +26,12 @@ D4(p) == FxRat(p, 10000)         \* p / 10^4
 D5(p) == FxRat(p, 100000)        \* p / 10^5   (|p| < 2^31, 10^5 < 2^17)
 I3 == <<FxOne, FxZero, FxZero, FxZero, FxOne, FxZero, FxZero, FxZero, FxOne>>
 Ones3 == <<FxOne, FxOne, FxOne>>
+(* ColourMath's Inv3 and MatMul3 return function constructors, which TLC keeps symbolic and re-evaluates at every
+   application; T9/T3 enumerate them once into tuples (same values) *)
+T3(f) == <<f[1], f[2], f[3]>>
+T9(f) == <<f[1], f[2], f[3], f[4], f[5], f[6], f[7], f[8], f[9]>>
+Inv3T(m) == T9(Inv3(m))
+MatMul3T(a, b) == T9(MatMul3(a, b))
 
 -----------------------------------------------------------------------------
 (* White points: tristimulus values normalised to Y = 1.
@@ -114,8 +120,8 @@ AdaptRef(ws, wd, M, Minv) ==
       DM == << FxMul(g[1], M[1]), FxMul(g[1], M[2]), FxMul(g[1], M[3]),
                FxMul(g[2], M[4]), FxMul(g[2], M[5]), FxMul(g[2], M[6]),
                FxMul(g[3], M[7]), FxMul(g[3], M[8]), FxMul(g[3], M[9]) >>
-  IN MatMul3(Minv, DM)
-Adapt(src, dst, m) == AdaptRef(WP(src), WP(dst), Cone(m), Inv3(Cone(m)))
+  IN MatMul3T(Minv, DM)
+Adapt(src, dst, m) == AdaptRef(WP(src), WP(dst), Cone(m), Inv3T(Cone(m)))
 
 -----------------------------------------------------------------------------
 (* agreement of vectors and matrices, in bits relative to `scale` *)
